@@ -66,7 +66,11 @@ def _write_data(sid_path: Path, data: Mapping[str, Any]) -> bool:
                 data = previous_data
 
         # dumping data, converting to string if not serializable
-        data_path.write_text(json.dumps(data, indent=4, default=str))
+        # The data is written to a temporary file, which then replaces the json file in one step:
+        # an interrupted write never truncates or tears existing data.
+        temp_path = data_path.with_name(data_path.name + ".tmp")
+        temp_path.write_text(json.dumps(data, indent=4, default=str))
+        temp_path.replace(data_path)
 
         return data_path.exists()
 
